@@ -13,8 +13,6 @@ def showOut : R (List UInt8) → String
   | .ok v => "ok:" ++ hexOfBytes v
   | .err .blocked => "blocked"
   | .err .ethercat => "ethercat-error"
-  | .err .typeError => "type-error"
-  | .err .nameError => "name-error"
   | .err .valueError => "value-error"
   | .err .structError => "struct-error"
 
